@@ -119,6 +119,11 @@ func c17Merge(dst, src interface{}, opts ...interface{}) error {
 
 func c17IsURL(s string) bool { return false }
 
+// decoding the merged map into definitions is C15's subject; here the merged map is what is observed
+func c17Decode(cl *Loader, cm map[string]interface{}) (*configDefinition, error) {
+	return &configDefinition{}, nil
+}
+
 // VerifC17: n files (2..4); every file has 0..2 symbolic imports among the files, the directory /p/sub and a missing file.
 func VerifC17(n, part int) {
 	rt.Unwind(2000)
@@ -159,8 +164,16 @@ func VerifC17(n, part int) {
 	rt.Redirect("path/filepath.Glob", c17Glob)
 	rt.Redirect("github.com/imdario/mergo.Merge", c17Merge)
 
-	cl := &Loader{imports: map[string]bool{}, dir: "/p"}
-	_, err := cl.load("/p/a.yaml")
+	rt.Redirect("(*github.com/taskctl/taskctl/internal/config.Loader).decode", c17Decode)
+
+	// through the public entry point, so that whatever Load prepares for load() is in place;
+	// the entry file is given the way the CLI gives it: relative to the working directory, or absolute
+	cl := &Loader{dst: NewConfig(), imports: map[string]bool{"/p/stale.yaml": true}, dir: "/p"}
+	entry := "/p/a.yaml"
+	if rt.Bool("entry-given-relative") {
+		entry = "a.yaml"
+	}
+	_, err := cl.Load(entry)
 
 	// ---- reference: reachability through imports of files that loaded ----
 	reach := make([]bool, n)
